@@ -118,7 +118,7 @@ pub fn run(ctx: &mut Ctx) {
         ctx.check("*:decimal-string:prefix", &json!({"*": [format!(" {} ", xs), 1]}), &null);
     }
     // radix literal families around the accumulator widths (all-zero, all-max, top bit, bottom bit, alternating)
-    for x in al::radix_families().into_iter().chain(al::radix_tails()).chain(al::integer_digit_strings()) {
+    for x in al::radix_families().into_iter().chain(al::radix_widths()).chain(al::radix_tails()).chain(al::integer_digit_strings()) {
         if !ctx.mine() {
             continue;
         }
